@@ -7,7 +7,8 @@ klass("TokenB", of="Token",
                   matched_keyword=Opt(Str), matched_keyword_type=Opt(Str), matched_indent=Int,
                   matched_items=ListOf("gherkin_line.Cell"), matched_gherkin_dialect=Str))
 klass("IdGeneratorB", of="IdGenerator", fields=dict(_id_counter=Int), record=False)
-klass("AstBuilder", fields=dict(id_generator="IdGenerator"), record=False)
+klass("AstBuilder", fields=dict(id_generator="IdGenerator", comments=MutList("ast_builder.Comment"), id_counter=Int),
+      record=False)
 
 contract("gherkin.ast_builder.AstBuilder.get_location",
          args=dict(token=Val("TokenB"), column=Opt(Int)), returns="Location",
@@ -335,3 +336,18 @@ contract("gherkin.token_formatter_builder.TokenFormatterBuilder.reset",
 # TokenFormatterBuilder.get_result ("\n".join of _format_token over the received tokens) is a comprehension over a
 # contract call with a per-element precondition: outside the generator's subset; it is covered by the F comparison
 # of the token listings of the acceptance corpus (finite.f_corpus) only.
+
+
+# ---- builder state between documents (C15) ------------------------------------------------------------------------
+klass("AstNodeR", of="AstNode", fields=dict(rule_type=Str), record=False)
+contract("gherkin.ast_node.AstNode.__init__", abstract=True,
+         args=dict(self=Raw("AstNode"), rule_type=Str), returns=NoneT, modifies=["self.*"],
+         notes="the defaultdict(list) of sub-items is outside the subset; the node is used here only as the root marker")
+
+# reset: a used builder is indistinguishable from a new one -- one root node, no comments, counter 0
+contract("gherkin.ast_builder.AstBuilder.reset",
+         args=dict(self="AstBuilder"), returns=NoneT, modifies=["self.stack", "self.comments", "self.id_counter"],
+         ensures=[
+             clause("no-comments", lambda self: len(self.comments) == 0, serves=["C15", "C03"]),
+             clause("counter", lambda self: self.id_counter == 0, serves=["C15"]),
+         ])
